@@ -18,7 +18,7 @@ LEVEL_TEXT = (
     "2-3 real threads (each 1-2 requests, optionally one calling close(), optionally a failing attempt so the retry path runs concurrently) on one pool with maxsize 1-2, blocking or not; "
     "exactly one thread runs at a time and a seeded scheduler decides at every executed line of the pool code, every queue operation and every socket call who continues "
     "(uniform pre-emption probabilities, PCT priority schedules); blocked get() calls wait on the virtual clock. Oracles: socket used by one request at a time, <= maxsize sockets "
-    "on blocking pools, every task finishes with its own echo, close() races end in completion or ClosedPoolError, nothing left open after the pool is dropped. Sampling of interleavings."
+    "on blocking pools, every task finishes with its own echo, close() races end in completion or ClosedPoolError, nothing left open after the pool is dropped and no socket closed only by deallocation. Single and double pre-emptions of sampled small scenarios are enumerated; the rest is sampling of interleavings."
 )
 LEVEL_NOTE = "trusted: SimLifoQueue semantics (= queue.LifoQueue for the calls made), pre-emption granularity = Python lines of urllib3's own modules + simulated primitives (not inside http.client or C code)"
 N = {"quick": 12000, "thorough": 250000}
